@@ -117,7 +117,7 @@ fn enumerate_histories(prop: Prop, engine: Engine, kind: u8, cap_idx: u8, univ: 
                 // all sequences of length 0..=depth, partitioned by (first symbol index % WORKERS)
                 let mut idx: Vec<usize> = Vec::new();
                 if wk == 0 {
-                    let c = Case { engine, prop, kind, cap: cap_idx, cap2: 0, univ, mode: 0, fuse: -1, ops: vec![] };
+                    let c = Case { engine, prop, kind, cap: cap_idx, cap2: 0, univ, mode: 0, fuse: -1, ops: vec![], named: vec![] };
                     if let Verdict::Fail(c, m, s) = evaluate(&c, prop, &camp, Some(&mut agg), known) {
                         agg.violation = Some((c, m, s));
                         return agg;
@@ -130,7 +130,7 @@ fn enumerate_histories(prop: Prop, engine: Engine, kind: u8, cap_idx: u8, univ: 
                         idx[0] = first;
                         loop {
                             let ops: Vec<[u8; 4]> = idx.iter().map(|i| alphabet[*i]).collect();
-                            let c = Case { engine, prop, kind, cap: cap_idx, cap2: 0, univ, mode: 0, fuse: -1, ops };
+                            let c = Case { engine, prop, kind, cap: cap_idx, cap2: 0, univ, mode: 0, fuse: -1, ops, named: vec![] };
                             if let Verdict::Fail(c, m, s) = evaluate(&c, prop, &camp, Some(&mut agg), known) {
                                 agg.violation = Some((c, m, s));
                                 return agg;
@@ -226,7 +226,7 @@ fn enumerate_pairs(prop: Prop, engine: Engine, kind: u8, pairs: &[(u8, u8)], u: 
                             }
                             let mut ops: Vec<[u8; 4]> = l.iter().map(|s| [0, s[0], s[1], 0]).collect();
                             ops.extend(r.iter().map(|s| [0, s[0], s[1], 0x80]));
-                            let c = Case { engine, prop, kind, cap: *ci, cap2: *cj, univ: u as u8, mode: 0, fuse: -1, ops };
+                            let c = Case { engine, prop, kind, cap: *ci, cap2: *cj, univ: u as u8, mode: 0, fuse: -1, ops, named: vec![] };
                             if let Verdict::Fail(c, msg, s) = evaluate(&c, prop, &camp, Some(&mut agg), known) {
                                 agg.violation = Some((c, msg, s));
                                 return agg;
